@@ -735,8 +735,15 @@ func main() {
 	outProg := flag.String("out-prog", "", "fifth output Lean file: whole functions translated statement by statement (PV.FactsProg); not written when empty")
 	outCore := flag.String("out-core", "", "sixth output Lean file: the parser core translated statement by statement (PV.FactsCore); not written when empty")
 	outTree := flag.String("out-tree", "", "seventh output Lean file: the tree passes and the evaluation translated statement by statement (PV.FactsTree); not written when empty")
+	outTerm := flag.String("out-term", "", "eighth output Lean file: the terminal parsers of text/terminal translated statement by statement (PV.FactsTerm); not written when empty")
 	flag.StringVar(&repo, "repo", "/repo", "repository root")
 	flag.Parse()
+	if *outTerm != "" {
+		if err := writeTermFacts(*outTerm); err != nil {
+			fmt.Fprintln(os.Stderr, err)
+			os.Exit(1)
+		}
+	}
 	if *outTree != "" {
 		if err := writeTreeFacts(*outTree); err != nil {
 			fmt.Fprintln(os.Stderr, err)
